@@ -275,7 +275,8 @@ def drive_sdf_read(r, d):
     else:
         p = os.path.join(d, "spec" + r["ext"])
         with open(p, "wb") as fh:
-            fh.write(text.encode("latin-1"))
+            # the same lines with the line terminator of another platform for every second file
+            fh.write((text.replace("\n", "\r\n") if r.get("crlf") else text).encode("latin-1"))
         back = read_back(lambda: Molecule.load(p), 1)
     return {"k": "sdf_read", "names": [list(n.encode("latin-1")) for n in r["names"]],
             "mols": [{"atoms": atoms_in(m["atoms"], 1), "bonds": [list(b) for b in m["bonds"]]} for m in r["mols"]],
@@ -338,6 +339,8 @@ def drive_xyz_rt(r, d):
     wexc, data = "", b""
     try:
         m, _ = build(r["atoms"], nl, r["gb"])
+        if "comment" in r:
+            m.properties["comment"] = r["comment"]
         if r.get("sdf_first"):
             # the same molecule object has been written in the other format before (writing must not change the molecule)
             try:
@@ -529,7 +532,7 @@ def make_recipes(ctx):
             names.append(rng.choice(["mol", "water 1", "", "C6H6", "name-%d" % j]))
         route = rng.choice(["string", "file"])
         recipes.append({"k": "sdf_read", "names": names, "mols": mols, "style": style, "route": route,
-                        "ext": rng.choice([".sdf", ".SDF"])})
+                        "ext": rng.choice([".sdf", ".SDF"]), "crlf": route == "file" and i % 2 == 1})
     # ---- the repository's own SDF file
     for route in ("string", "file"):
         for gb in (False, True):
@@ -552,6 +555,9 @@ def make_recipes(ctx):
         route = rng.choice(["string", "file"])
         ext = ".xyz" if route == "string" else rng.choice([".xyz", ".xyz", ".XYZ", "xyz", ".Xyz"])
         recipes.append({"k": "xyz_rt", "nl": nl, "route": route, "ext": ext, "gb": chain, "atoms": atoms, "sdf_first": rng.random() < 0.5})
+        if rng.random() < 0.35:
+            # the molecule carries a comment for the title line: empty, blank, or text
+            recipes[-1]["comment"] = rng.choice(["", "", "   ", "generated by a test", "0", "C1 H4"])
     # ---- XYZ spellings
     blanks = lambda lo, hi: "".join(rng.choice(" \t") if rng.random() < 0.5 else " " for _ in range(rng.randint(lo, hi)))  # noqa: E731
     for i in range(n_spell):
